@@ -10,3 +10,4 @@ import ServlinVerif.Gen.C20Tables
 import ServlinVerif.Props.C14
 import ServlinVerif.Props.C20
 import ServlinVerif.Props.C16
+import ServlinVerif.Props.C07
